@@ -241,6 +241,22 @@ def run(ctx):
                     names = [t.get("tag_name") for t in out]
                     if len(names) != len(set(names)):
                         res.violation("duplicate-tags", f"get_tag_list returned duplicates: {sorted(n for n in names if names.count(n) > 1)[:4]}", {"config": sc.label})
+            # ---- the program is edited and downloaded again: a later upload on the same driver must show the new definitions
+            if rng.random() < 0.6:
+                changed = rpj.redefine_type(sc.prj, rng)
+                if changed is not None:
+                    how = rng.choice(["get_tag_list", "reopen"])
+                    if how == "reopen":
+                        sc.b.call("close", sc.drv.close)
+                        st, out = sc.b.call("open", sc.drv.open)
+                    else:
+                        st, out = sc.b.call("get_tag_list", sc.drv.get_tag_list, "*" if ipt else None)
+                    res.count(f"re-upload-after-edit:{how}")
+                    if st != "ok":
+                        res.ev()
+                        res.violation("re-upload-after-edit-raises", f"{how} after a type was redefined raised {out!r:.200} ({sc.label})", {"config": sc.label})
+                    else:
+                        js0 = check_upload(res, sc, sc.drv, "*" if ipt else None, keyp="after-edit:")
             # ---- scoped uploads -------------------------------------------------------------------------------------------
             if sc.prj.programs and not sc.micro:
                 pn = rng.choice(sorted(sc.prj.programs))
